@@ -739,7 +739,23 @@ func OrdSortMap(p *load.Program) *report.RuleResult {
 			return false
 		}
 		sc := c.Common().StaticCallee()
-		return sc != nil && sc.Pkg != nil && sc.Pkg.Pkg.Path() == "sort"
+		if sc == nil || sc.Pkg == nil || sc.Pkg.Pkg.Path() != "sort" {
+			return false
+		}
+		// sort.Slice / SliceStable / Sort with a comparator: it must order the keys
+		// themselves (a total order on distinct keys), not an image of them under a
+		// function that can map two keys to the same thing
+		for _, a := range c.Common().Args {
+			if mc, ok := a.(*ssa.MakeClosure); ok {
+				if lf, ok := mc.Fn.(*ssa.Function); ok && !comparesElementsDirectly(lf) {
+					return false
+				}
+			}
+			if lf, ok := a.(*ssa.Function); ok && !comparesElementsDirectly(lf) {
+				return false
+			}
+		}
+		return true
 	}
 	cut := func(b *ssa.BasicBlock, si int) bool {
 		ifi, ok := b.Instrs[len(b.Instrs)-1].(*ssa.If)
@@ -763,9 +779,9 @@ func OrdSortMap(p *load.Program) *report.RuleResult {
 			}
 			n++
 			if ssau.ReachesAvoiding(em, in, isSort, cut) {
-				r.Bad(p.FuncName(em), instrPos(p, in), "field emission", "with EncodeSortMaps set a field can be emitted without the keys having been sorted")
+				r.Bad(p.FuncName(em), instrPos(p, in), "field emission", "with EncodeSortMaps set a field can be emitted without the keys having been sorted by a total order on the keys themselves (no sort call on the path, or its comparator compares an image of the keys such as a case-folded copy, under which distinct keys tie and keep their random map order)")
 			} else {
-				r.OK(p.FuncName(em), instrPos(p, in), "field emission", "with EncodeSortMaps set every path passes a sort.* call first")
+				r.OK(p.FuncName(em), instrPos(p, in), "field emission", "with EncodeSortMaps set every path passes a sort.* call first (a comparator, if any, compares the keys themselves)")
 			}
 		}
 	}
@@ -1003,4 +1019,78 @@ func paramReachesEncoderOpts(p *load.Program, f *ssa.Function, pi, depth int) bo
 		}
 	}
 	return false
+}
+
+// comparesElementsDirectly: every result of the comparator f is an ordering
+// comparison (< > <= >=) whose operands are read from memory without passing
+// through a call (strings.Compare / bytes.Compare of such operands against 0
+// is the same thing), or a constant.
+func comparesElementsDirectly(f *ssa.Function) bool {
+	var pure func(v ssa.Value, d int) bool
+	pure = func(v ssa.Value, d int) bool {
+		if d > 10 {
+			return false
+		}
+		switch x := v.(type) {
+		case *ssa.Const, *ssa.Parameter, *ssa.FreeVar, *ssa.Alloc, *ssa.Global:
+			return true
+		case *ssa.UnOp:
+			return x.Op == token.MUL && pure(x.X, d+1)
+		case *ssa.FieldAddr:
+			return pure(x.X, d+1)
+		case *ssa.Field:
+			return pure(x.X, d+1)
+		case *ssa.IndexAddr:
+			return pure(x.X, d+1) && pure(x.Index, d+1)
+		case *ssa.Index:
+			return pure(x.X, d+1) && pure(x.Index, d+1)
+		case *ssa.Convert:
+			return pure(x.X, d+1)
+		case *ssa.ChangeType:
+			return pure(x.X, d+1)
+		}
+		return false
+	}
+	var okRes func(v ssa.Value, d int) bool
+	okRes = func(v ssa.Value, d int) bool {
+		if d > 6 {
+			return false
+		}
+		switch x := v.(type) {
+		case *ssa.Const:
+			return true
+		case *ssa.Phi:
+			for _, e := range x.Edges {
+				if !okRes(e, d+1) {
+					return false
+				}
+			}
+			return true
+		case *ssa.BinOp:
+			switch x.Op {
+			case token.LSS, token.GTR, token.LEQ, token.GEQ:
+				if c, ok := x.X.(*ssa.Call); ok {
+					if sf := c.Call.StaticCallee(); sf != nil && sf.Name() == "Compare" && sf.Pkg != nil && (sf.Pkg.Pkg.Path() == "strings" || sf.Pkg.Pkg.Path() == "bytes") {
+						if _, isK := x.Y.(*ssa.Const); isK && len(c.Call.Args) == 2 {
+							return pure(c.Call.Args[0], 0) && pure(c.Call.Args[1], 0)
+						}
+					}
+					return false
+				}
+				return pure(x.X, 0) && pure(x.Y, 0)
+			}
+		}
+		return false
+	}
+	n := 0
+	for _, ret := range returns(f) {
+		if len(ret.Results) != 1 {
+			return false
+		}
+		n++
+		if !okRes(ret.Results[0], 0) {
+			return false
+		}
+	}
+	return n > 0
 }
